@@ -577,13 +577,6 @@ Lemma validate_sound_refuted_lemma :
 Proof. vm_compute. repeat split. Qed.
 
 (* ---------- assignments: rejected => no effect ---------- *)
-Definition has_post (d : desc) : bool :=
-  match d with
-  | DMap _ | DPrefixMap _ => true
-  | DCompound ds => existsb is_mapped ds
-  | _ => false
-  end.
-
 Lemma post_nopost d w : has_post d = false -> post_setattr d w = NoPost.
 Proof.
   destruct d; cbn; try discriminate; try reflexivity.
@@ -593,8 +586,11 @@ Qed.
 Lemma post_raise_only_mapped d w e : post_setattr d w = PostRaise e -> is_mapped d = true.
 Proof.
   destruct d; cbn; try discriminate; try reflexivity.
-  destruct (existsb is_mapped ds); discriminate.
+  destruct (existsb has_post ds); discriminate.
 Qed.
+
+Lemma post_compound_never_raises ds w e : post_setattr (DCompound ds) w <> PostRaise e.
+Proof. cbn. destruct (existsb has_post ds); discriminate. Qed.
 
 (* TraitError => no effect, for every attribute whose trait is not a stand-alone Map / PrefixMap: those raise
    TraitError("Unmappable") from post_setattr AFTER the value was stored (c056106), which an unvalidated value reaches *)
@@ -745,12 +741,11 @@ Proof.
   constructor; [exact H1 | now apply IH].
 Qed.
 
-(* ---------- any exception => no effect, unless a post_setattr can raise (F19) ---------- *)
+(* ---------- any exception => no effect, provided the default of a stand-alone Map / PrefixMap is one of its keys ---------- *)
 Definition post_safe (c : cls) : bool :=
   forallb (fun e => let '(_, (d, dflt)) := e in
                     match d with
                     | DMap _ | DPrefixMap _ => match post_setattr d dflt with PostSet _ => true | _ => false end
-                    | DCompound ds => negb (existsb is_mapped ds)
                     | _ => true
                     end) c.
 
@@ -802,7 +797,13 @@ Proof.
     + destruct (pv_eqb o w); intros H; inversion H.
     + destruct (post_setattr (DPrefixMap m) dflt) as [|y|e']; try discriminate.
       destruct (pv_eqb dflt w); intros H; inversion H.
-  - (* DCompound *) rewrite Hh in Hp. discriminate.
+  - (* DCompound: its _post_setattr never raises *)
+    pose proof (post_compound_never_raises ds w) as Hw. pose proof (post_compound_never_raises ds dflt) as Hd.
+    destruct (post_setattr (DCompound ds) w) as [|x|e1]; [intros H; inversion H| |exfalso; now apply (Hw e1)].
+    destruct (get s n) as [o|].
+    + destruct (pv_eqb o w); intros H; inversion H.
+    + destruct (post_setattr (DCompound ds) dflt) as [|y|e']; [| |exfalso; now apply (Hd e')];
+        destruct (pv_eqb dflt w); intros H; inversion H.
 Qed.
 
 Lemma step_failure_no_effect E c s h n v s' e :
@@ -1134,7 +1135,12 @@ Proof.
       * destruct (pv_eqb o w); intros H; inversion H.
       * destruct (post_setattr (DPrefixMap m) dflt) as [|y|e']; try discriminate.
         destruct (pv_eqb dflt w); intros H; inversion H.
-    + rewrite Hh in Hp. discriminate.
+    + pose proof (post_compound_never_raises ds w) as Hw. pose proof (post_compound_never_raises ds dflt) as Hd.
+      destruct (post_setattr (DCompound ds) w) as [|x|e1]; [intros H; inversion H| |exfalso; now apply (Hw e1)].
+      destruct (get s n) as [o|].
+      * destruct (pv_eqb o w); intros H; inversion H.
+      * destruct (post_setattr (DCompound ds) dflt) as [|y|e']; [| |exfalso; now apply (Hd e')];
+          destruct (pv_eqb dflt w); intros H; inversion H.
   - intros H; inversion H; subst. now left.
   - intros H; inversion H; subst. right. eapply vs_own; eauto.
 Qed.
